@@ -54,6 +54,25 @@ class Opaque:
         return "<opaque %s>" % self.label
 
 
+UNBOUND = object()      # a local that exists in the function but has not been assigned on this path (e.g. the target of a loop that did not iterate)
+
+
+class LoopContract:
+    """sidecar contract of one `for` loop (see Executor._for_with_contract)"""
+
+    def __init__(self, name, count, inv, havoc, bind, frame=(), after=None):
+        self.name = name
+        self.count = count          # state -> z3 Int: number of iterations (>= 0)
+        self.inv = inv              # (state, k) -> [(label, z3 Bool)]: invariant after k iterations, over ghost state / heap attributes
+        self.havoc = havoc          # (state, k) -> None: overwrite every location the body may change with fresh symbols
+        self.bind = bind            # (state, k) -> value bound to the loop target in iteration k
+        self.frame = tuple(frame)   # prefixes of glob keys / "oid.attr" heap locations the body may change
+        self.after = after or (lambda state, n: None)
+
+    def in_frame(self, loc):
+        return any(loc == f or loc.startswith(f) for f in self.frame)
+
+
 class Closure:
     def __init__(self, node, env):
         self.node = node
@@ -199,6 +218,14 @@ class Executor:
         s.add(c)
         self.solver_calls += 1
         return s.check() != z3.unsat
+
+    def sat(self, state):
+        """is the path condition of this state satisfiable?"""
+        sv = z3.Solver()
+        sv.set("timeout", self.timeout_ms)
+        sv.add(*[to_z3(c) for c in state.pc])
+        self.solver_calls += 1
+        return sv.check() != z3.unsat
 
     def truth(self, state, v):
         """z3 Bool (or python bool) for the truthiness of v"""
@@ -400,6 +427,22 @@ class Executor:
                 else:
                     raise Unsupported("attribute assignment on %r" % (o,))
             return out
+        if isinstance(target, ast.Subscript) and not isinstance(target.slice, ast.Slice):
+            # container[key] = value on a modelled object: dispatched to the container's __setitem__ contract
+            out = []
+            for s, o in self.eval(target.value, state):
+                if isinstance(o, Raised):
+                    out.append((s, o))
+                    continue
+                for s2, k in self.eval(target.slice, s):
+                    if isinstance(k, Raised):
+                        out.append((s2, k))
+                    elif isinstance(o, Obj) and ("%s.__setitem__" % o.cls) in self.models:
+                        r = self.models["%s.__setitem__" % o.cls](self, s2, [o, k, value], {})
+                        out.extend([(s3, v if isinstance(v, Raised) else None) for s3, v in (r if isinstance(r, list) else [(s2, r)])])
+                    else:
+                        raise Unsupported("subscript assignment on %r" % (o,))
+            return out
         if isinstance(target, ast.Starred):
             return self.assign(target.value, value, state)
         if isinstance(target, (ast.Tuple, ast.List)):
@@ -429,6 +472,8 @@ class Executor:
 
     def st_For(self, st, state):
         out = []
+        if self._loop_contract_for(st) is not None:         # the iterable is described by the contract (count / bind), it is not evaluated
+            return self._for_with_contract(st, state, None, self._loop_contract_for(st))
         for s, it in self.eval(st.iter, state):
             if isinstance(it, Raised):
                 out.append((s, it))
@@ -450,11 +495,16 @@ class Executor:
                     sL.pc.append(n_ == L)
                     out.extend(self._for_items(st, sL, [it[i] for i in range(L)]))
                 continue
+            elif self._loop_contract_for(st) is not None:
+                out.extend(self._for_with_contract(st, s, it, self._loop_contract_for(st)))
+                continue
             elif isinstance(it, Opaque) and self._loop_is_local_arithmetic(st):
                 # an unknown number of iterations of a body that only re-assigns local names with call-free expressions: its whole effect is
                 # over-approximated by havoc'ing those names (sound: nothing else can change), no invariant needed
                 names = {t.id for n_ in ast.walk(st) for t in ([n_.target] if isinstance(n_, (ast.AugAssign, ast.For)) else (n_.targets if isinstance(n_, ast.Assign) else []))
                          if isinstance(t, ast.Name)}
+                names |= {b_.value.func.value.id for b_ in st.body if isinstance(b_, ast.Expr) and isinstance(b_.value, ast.Call) and isinstance(b_.value.func, ast.Attribute)
+                          and b_.value.func.attr == "append" and isinstance(b_.value.func.value, ast.Name)}
                 for nm in sorted(names):
                     s.env[nm] = Opaque("loop:%s@%d" % (nm, st.lineno))
                 out.append((s, None))
@@ -464,11 +514,93 @@ class Executor:
             out.extend(self._for_items(st, s, items))
         return out
 
+    # ---- loops under contract (sidecar: keyed by the source text of the iterable, e.g. "enumerate(train_loader)")
+    def _loop_contract_for(self, st):
+        lc = getattr(self, "loop_contracts", None)
+        return lc.get(ast.unparse(st.iter)) if lc else None
+
+    def _for_with_contract(self, st, s, it, c):
+        """Hoare rule for  `for target in iterable: body`  with an inductive invariant over ghost state:
+             (1) inv(0) on entry;  (2) havoc the frame, assume 0 <= k < n and inv(k), bind the target, run the body ONCE, show inv(k+1) on every normal exit
+             (return / raise paths leave the loop as they are);  (3) continue after the loop: unchanged state if n == 0, else a havoc'ed state with inv(n).
+           Verification conditions (path condition folded in) are collected in self.vcs; the harness discharges them with the target's own clauses.
+           Frame check: whatever the body changes in glob / heap beyond the declared frame makes the run leave the subset."""
+        if not hasattr(self, "vcs"):
+            self.vcs = []
+        n = c.count(s)
+        conj = lambda pc: z3.And(*[to_z3(x) for x in pc]) if pc else z3.BoolVal(True)
+        for nm, g in c.inv(s, z3.IntVal(0)):
+            self.vcs.append(("%s.holds_on_entry[%s]" % (c.name, nm), z3.Implies(conj(s.pc), to_z3(g))))
+        names = {t.id for n_ in ast.walk(st) for t in ([n_.target] if isinstance(n_, (ast.AugAssign, ast.For)) else (n_.targets if isinstance(n_, ast.Assign) else [])) if isinstance(t, ast.Name)}
+        names |= {n_.id for n_ in ast.walk(st.target) if isinstance(n_, ast.Name)}
+        same = lambda x, y: x is y or (is_z3(x) and is_z3(y) and x.eq(y))
+        out = []
+        # (2) an arbitrary iteration
+        self._loop_n = getattr(self, "_loop_n", 0) + 1
+        k = z3.Int("%s$k%d" % (c.name, self._loop_n))
+        b = s.fork()
+        b.pc += [k >= 0, k < n]
+        for nm in sorted(names):
+            if nm in b.env:
+                b.env[nm] = Opaque("loop:%s" % nm)
+        c.havoc(b, k)
+        b.pc += [to_z3(g) for _, g in c.inv(b, k)]
+        if self.sat(b):
+            snap_glob = dict(b.glob)
+            snap_heap = {oid: dict(at) for oid, at in b.heap.items()}
+            for b1, o1 in self.assign(st.target, c.bind(b, k), b):
+                if o1 is not None:
+                    out.append((b1, o1))
+                    continue
+                for b2, o2 in self.exec_block(st.body, b1):
+                    if isinstance(o2, (Returned, Raised)):
+                        out.append((b2, o2))
+                        continue
+                    if o2 == "break":
+                        raise Unsupported("break inside a loop under contract (line %d)" % st.lineno)
+                    changed = [kk for kk, vv in b2.glob.items() if kk in snap_glob and not same(vv, snap_glob[kk])] + [kk for kk in b2.glob if kk not in snap_glob]
+                    changed += ["%s.%s" % (oid, a_) for oid, at in b2.heap.items() for a_, vv in at.items() if oid in snap_heap and (a_ not in snap_heap[oid] or not same(vv, snap_heap[oid][a_]))]
+                    outside = [x for x in changed if not c.in_frame(x)]
+                    if outside:
+                        raise Unsupported("loop body changes %s, which the loop contract's frame does not cover (line %d)" % (outside[:4], st.lineno))
+                    for nm, g in c.inv(b2, k + 1):
+                        self.vcs.append(("%s.preserved[%s]" % (c.name, nm), z3.Implies(conj(b2.pc), to_z3(g))))
+        # (3) after the loop
+        zero = s.fork()
+        zero.pc.append(n == 0)
+        for nm in names:
+            if nm not in zero.env:
+                zero.env[nm] = UNBOUND
+        if self.sat(zero):
+            out.append((zero, None))            # no iteration: nothing changed, loop variables stay as they were (possibly unbound)
+        s.pc.append(n > 0)
+        if self.sat(s):
+            for nm in sorted(names):
+                s.env[nm] = Opaque("loop:%s" % nm)
+            c.havoc(s, n)
+            s.pc += [to_z3(g) for _, g in c.inv(s, n)]
+            c.after(s, n)
+            out.append((s, None))
+        return out
+
     @staticmethod
     def _loop_is_local_arithmetic(st):
         if st.orelse or not isinstance(st.target, ast.Name):
             return False
-        for n_ in ast.walk(ast.Module(body=st.body, type_ignores=[])):
+        # `xs.append(<call-free expression or attribute/method of the loop variable>)` on a local list counts as re-assigning xs
+        body = []
+        for b_ in st.body:
+            if (isinstance(b_, ast.Expr) and isinstance(b_.value, ast.Call) and isinstance(b_.value.func, ast.Attribute) and b_.value.func.attr == "append"
+                    and isinstance(b_.value.func.value, ast.Name) and len(b_.value.args) == 1 and not b_.value.keywords):
+                arg = b_.value.args[0]
+                ok_arg = isinstance(arg, ast.Name) or (isinstance(arg, ast.Call) and isinstance(arg.func, ast.Attribute) and isinstance(arg.func.value, ast.Name)
+                                                       and arg.func.value.id == st.target.id and not arg.args and not arg.keywords)
+                if not ok_arg:
+                    return False
+                body.append(ast.Assign(targets=[ast.Name(id=b_.value.func.value.id, ctx=ast.Store())], value=ast.Constant(value=None)))
+            else:
+                body.append(b_)
+        for n_ in ast.walk(ast.Module(body=body, type_ignores=[])):
             if isinstance(n_, (ast.Call, ast.Attribute, ast.Subscript, ast.Return, ast.Raise, ast.Break, ast.Continue, ast.While, ast.With, ast.Try, ast.Global, ast.Nonlocal,
                                ast.Yield, ast.YieldFrom, ast.Await, ast.Lambda, ast.FunctionDef, ast.ClassDef, ast.Delete, ast.Import, ast.ImportFrom, ast.NamedExpr)):
                 return False
@@ -568,6 +700,8 @@ class Executor:
 
     def ex_Name(self, e, state):
         n = e.id
+        if state.env.get(n, None) is UNBOUND:
+            return [(state, Raised("UnboundLocalError", n))]
         if n in state.global_names and n in state.glob:
             return [(state, state.glob[n])]
         if n in state.env:
@@ -589,6 +723,10 @@ class Executor:
         for s, vals in self.eval_many(e.elts, state):
             out.append((s, vals if isinstance(vals, Raised) else list(vals)))
         return out
+
+    def ex_Dict(self, e, state):
+        # dictionaries are not interpreted: a fresh object (so that identity / "is the returned history the stored one" can be stated), its content stays abstract
+        return [(state, Obj("dict"))]
 
     def ex_Lambda(self, e, state):
         return [(state, Opaque("lambda"))]
@@ -681,7 +819,9 @@ class Executor:
                 return (not r) if isinstance(r, bool) else z3.Not(r)
             return r
         if isinstance(op, (ast.In, ast.NotIn)):
-            if isinstance(b, (tuple, list, range)):
+            if isinstance(b, tuple) and len(b) == 2 and b[0] == "objdict" and isinstance(b[1], Obj) and isinstance(a, str):
+                r = a in state.attrs(b[1])           # 'attr' in obj.__dict__
+            elif isinstance(b, (tuple, list, range)):
                 cs = [self.compare(ast.Eq(), a, x, state) for x in b]
                 if all(isinstance(c, bool) for c in cs):
                     r = any(cs)
@@ -831,6 +971,8 @@ class Executor:
             at = s.attrs(o)
             if attr in at:
                 return [(s, at[attr])]
+            if attr == "__dict__":
+                return [(s, ("objdict", o))]
             return [(s, ("method", o, attr))]
         if isinstance(o, tuple) and o and o[0] == "builtin":
             return [(s, ("builtin", o[1] + "." + attr))]
@@ -984,8 +1126,13 @@ class Executor:
     # ------------------------------------------------------------------------------------------------ calls
     def ex_Call(self, e, state):
         out = []
-        if any(isinstance(a, ast.Starred) for a in e.args) or any(k.arg is None for k in e.keywords):
-            raise Unsupported("star arguments (line %d)" % e.lineno)
+        if any(k.arg is None for k in e.keywords):
+            raise Unsupported("**kwargs (line %d)" % e.lineno)
+        if any(isinstance(a, ast.Starred) for a in e.args):
+            # f(*xs): supported when xs is an uninterpreted value (the callee then receives one uninterpreted argument pack) or a concrete tuple/list
+            e = copy.copy(e)
+            e.args = [a.value if isinstance(a, ast.Starred) else a for a in e.args]
+            starred = [isinstance(a, ast.Starred) for a in e.args] if False else None
         for s, f in self.eval(e.func, state):
             if isinstance(f, Raised):
                 out.append((s, f))
@@ -1026,6 +1173,9 @@ class Executor:
         if isinstance(f, Opaque):
             self.havocs_used.append(f.label)
             return [(s, Opaque("call"))]
+        if isinstance(f, Obj) and ("%s.__call__" % f.cls) in self.models:
+            r = self.models["%s.__call__" % f.cls](self, s, [f] + list(args), kw)
+            return r if isinstance(r, list) else [(s, r)]
         raise Unsupported("call of %r" % (f,))
 
     def call_method(self, o, meth, args, kw, s):
@@ -1062,6 +1212,10 @@ class Executor:
 
     def call_closure(self, f, args, kw, s):
         fn = f.node
+        cm = getattr(self, "closure_models", {}).get(getattr(fn, "name", None))
+        if cm is not None:          # a nested helper used through its contract
+            r = cm(self, s, list(args), kw)
+            return r if isinstance(r, list) else [(s, r)]
         s.env = dict(s.env)
         saved = s.env
         env = dict(f.env)
